@@ -6,10 +6,12 @@ import (
 	"path"
 	"sort"
 	"strings"
+	"unicode"
 
 	ap "github.com/go-ap/activitypub"
 
 	"verif/internal/engine"
+	"verif/internal/universe"
 )
 
 // C14 — IRI equivalence is an equivalence relation with the documented insensitivities (DESIGN.md §3 C14).
@@ -51,13 +53,29 @@ func c14Grid(quick bool) []c14IRI {
 
 // c14Norm is the reference normaliser: scheme (only when asked), host+port lower-cased, cleaned case-folded path with
 // "/" == "", sorted multiset of query pairs, fragment dropped.
+// c14Fold maps every rune to the smallest member of its simple case-folding orbit: "ignoring letter case" in the sense of
+// strings.EqualFold (K and the Kelvin sign fold together, U+0130 and i do not), unlike strings.ToLower.
+func c14Fold(s string) string {
+	var b strings.Builder
+	for _, r := range s {
+		m := r
+		for f := unicode.SimpleFold(r); f != r; f = unicode.SimpleFold(f) {
+			if f < m {
+				m = f
+			}
+		}
+		b.WriteRune(m)
+	}
+	return b.String()
+}
+
 func c14Norm(i c14IRI, checkScheme bool) string {
 	var b strings.Builder
 	if checkScheme {
-		b.WriteString(strings.ToLower(i.scheme))
+		b.WriteString(c14Fold(i.scheme))
 	}
 	b.WriteString("|")
-	b.WriteString(strings.ToLower(i.host))
+	b.WriteString(c14Fold(i.host))
 	b.WriteString("|")
 	p := i.path
 	if p != "" {
@@ -66,13 +84,13 @@ func c14Norm(i c14IRI, checkScheme bool) string {
 	if p == "/" {
 		p = ""
 	}
-	b.WriteString(strings.ToLower(p))
+	b.WriteString(c14Fold(p))
 	b.WriteString("|")
 	q, _ := url.ParseQuery(strings.TrimPrefix(i.query, "?"))
 	var pairs []string
 	for k, vs := range q {
 		for _, v := range vs {
-			pairs = append(pairs, k+"="+v)
+			pairs = append(pairs, k+"\x00"+v) // a separator that cannot occur in a decoded key or value of these grids
 		}
 	}
 	sort.Strings(pairs)
@@ -117,7 +135,7 @@ func init() {
 			"compared with the reference normaliser; plus 42 non-URL strings (all ordered pairs among them and against the grid) for reflexivity/symmetry and list membership; non-trivial = pair of different presentations",
 		Assumptions: []string{"queries in one letter case (outside the stated domain otherwise)", "net/url parsing of the grid IRIs"},
 		Bound: func(tier string) string {
-			return "complete grid of 2304 IRIs: 5.3M ordered pairs x 2 scheme modes; host grid of 840 IRIs (IPv6 literals differing in address / case / port, explicit default ports, dot segments, query values ending in a slash): 706k ordered pairs x 2 modes; query grid of 242 IRIs (every sequence of <= 4 parameters over x=1,x=2,y=2): 58k ordered pairs x 2 modes; membership in lists of 2..65 members (equivalent member first/last) over a 384-IRI sub-grid; scale grid of 1008 long IRIs (paths ending 64/300/1100 bytes in, queries of 17/33 parameters): 1.0M ordered pairs x 2 modes; 42 strings x (42 + 2304) pairs (same in both tiers)"
+			return "complete grid of 2304 IRIs: 5.3M ordered pairs x 2 scheme modes; confusable grid of ~310 IRIs (letters that a careless case mapping identifies, percent-encoded = and & in query keys and values, ids colliding under common 32-bit hashes); host grid of 840 IRIs (IPv6 literals differing in address / case / port, explicit default ports, dot segments, query values ending in a slash): 706k ordered pairs x 2 modes; query grid of 242 IRIs (every sequence of <= 4 parameters over x=1,x=2,y=2): 58k ordered pairs x 2 modes; membership in lists of 2..65 members (equivalent member first/last) over a 384-IRI sub-grid; scale grid of 1008 long IRIs (paths ending 64/300/1100 bytes in, queries of 17/33 parameters): 1.0M ordered pairs x 2 modes; 42 strings x (42 + 2304) pairs (same in both tiers)"
 		},
 		Run: c14Run,
 	})
@@ -263,7 +281,29 @@ func c14HostGrid() []c14IRI {
 	return out
 }
 
+// c14ConfusableGrid: paths that differ in one letter a careless case mapping identifies (U+0130 / dotless i / Kelvin sign / long
+// s), percent-encoded separators inside query keys and values, and ids that collide under common 32-bit hashes.
+func c14ConfusableGrid() []c14IRI {
+	var out []c14IRI
+	for _, p := range []string{"/~\u0130nci", "/~inci", "/~\u0131nci", "/~Inci", "/~INCI", "/\u212a", "/k", "/K", "/\u017f", "/s", "/S"} {
+		for _, q := range []string{"", "?a%3Db=c", "?a=b%3Dc", "?a=b=c", "?a%26b=c", "?a=b%26c", "?a=b&c=", "?a=b&c"} {
+			out = append(out, c14IRI{"https", "e.com", p, q, ""})
+		}
+	}
+	for _, pr := range universe.CollidingIDs() {
+		for _, id := range pr {
+			u, err := url.Parse(string(id))
+			if err != nil {
+				continue
+			}
+			out = append(out, c14IRI{u.Scheme, u.Host, u.Path, "", ""}, c14IRI{"http", strings.ToUpper(u.Host), u.Path + "/", "", "#f"})
+		}
+	}
+	return out
+}
+
 func c14Run(c *engine.Ctx) {
+	c14RunGrid(c, c14ConfusableGrid(), "confusable-grid")
 	c14RunGrid(c, c14HostGrid(), "host-grid")
 	c14RunGrid(c, c14Grid(c.Quick()), "grid")
 	c14RunGrid(c, c14ScaleGrid(), "scale-grid")
